@@ -165,6 +165,7 @@ type c09Plan struct {
 	TCPClients int  `json:"tcp_clients"`
 	PerClient  int  `json:"transactions_per_client"`
 	Churn      bool `json:"membership_churn"`
+	FastChurn  bool `json:"fast_churn"` // membership flips every few hundred microseconds (all transactions then fall under the relaxed delivery oracle; crash / race / progress oracles stay strict)
 	Hammer     bool `json:"hammer_pool_transport_table_resolver"`
 }
 
@@ -198,6 +199,12 @@ func (r *c09Rig) run(plan c09Plan, tag string) c09Outcome {
 		answer bool
 	}
 	nClients := plan.UDPClients + plan.TCPClients
+	// under fast churn every transaction falls under the relaxed delivery oracle
+	// (a dispatch may hit a backend that is just being closed): do not wait 20 s for those
+	wait := 20 * time.Second
+	if plan.Churn && plan.FastChurn {
+		wait = 250 * time.Millisecond
+	}
 	txns := make([][]txn, nClients)
 	entries := r.cfg.Listens
 	client := func(ci int, tcp bool) {
@@ -222,7 +229,7 @@ func (r *c09Rig) run(plan c09Plan, tag string) c09Outcome {
 			rd := bufio.NewReaderSize(c, 1<<16)
 			send = func(b []byte) error { _, err := c.Write(b); return err }
 			recv = func() (*RMsg, error) {
-				c.SetReadDeadline(time.Now().Add(20 * time.Second))
+				c.SetReadDeadline(time.Now().Add(wait))
 				return sipReadStream(rd)
 			}
 			via = fmt.Sprintf("SIP/2.0/TCP %s:5060", localIP)
@@ -238,7 +245,7 @@ func (r *c09Rig) run(plan c09Plan, tag string) c09Outcome {
 			buf := make([]byte, 70000)
 			send = func(b []byte) error { _, err := c.WriteToUDP(b, dst); return err }
 			recv = func() (*RMsg, error) {
-				c.SetReadDeadline(time.Now().Add(20 * time.Second))
+				c.SetReadDeadline(time.Now().Add(wait))
 				n, _, err := c.ReadFromUDP(buf)
 				if err != nil {
 					return nil, err
@@ -283,6 +290,23 @@ func (r *c09Rig) run(plan c09Plan, tag string) c09Outcome {
 		go func() {
 			defer bg.Done()
 			k := 0
+			if plan.FastChurn {
+				s := r.tick()
+				for atomic.LoadInt32(&r.stop) == 0 {
+					pi := k % 2
+					pool := r.poolIPs[pi]
+					n := (k / 2) % (len(pool) + 1)
+					dynamicHostResolver.addressResolved(r.pools[pi], append([]string{}, pool[:n]...), nil)
+					out.membership++
+					k++
+					time.Sleep(time.Duration(100+(k%7)*50) * time.Microsecond)
+				}
+				e := r.tick()
+				r.mu.Lock()
+				r.removals = append(r.removals, [2]int64{s, e})
+				r.mu.Unlock()
+				return
+			}
 			for atomic.LoadInt32(&r.stop) == 0 {
 				pi := k % 2
 				pool := r.poolIPs[pi]
@@ -398,27 +422,29 @@ func (r *c09Rig) run(plan c09Plan, tag string) c09Outcome {
 }
 
 func TestC09(t *testing.T) {
-	V.Rule("lab under the race detector: rapid draws load plans - GOMAXPROCS in {2,4,8,16}, 2-12 UDP and 1-8 TCP stop-and-wait clients spread over three listen entries of one service (shared learned-route table; UDP and TCP listeners; UDP, TCP and dynamically resolved backends), 30-250 transactions each with unique identifiers, backends that answer every request, optional membership churn through the resolver's addressResolved entry point (at least one stable backend per listen entry), optional hammering of ByteArrayPool, ClientTransportMgr and DynamicHostResolver from three goroutines. Oracle: no race report, no fatal error or panic, every client finishes (no transaction waits more than 20 s unless a membership change was in flight), every request reached exactly one backend of the listen entry it was sent to (at most one while a change was in flight), every response returned to the client that sent the request. non-trivial = plan with >= 2 listeners receiving simultaneously and >= 1 membership change during traffic; distinct by plan")
+	V.Rule("lab under the race detector: rapid draws load plans - GOMAXPROCS in {2,4,8,16}, 2-12 UDP and 1-8 TCP stop-and-wait clients spread over three listen entries of one service (shared learned-route table; UDP and TCP listeners; UDP, TCP and dynamically resolved backends), 30-250 transactions each with unique identifiers, backends that answer every request, optional membership churn through the resolver's addressResolved entry point, sparse (a change every 70-110 ms) or fast (every 100-400 us), at least one stable backend per listen entry, optional hammering of ByteArrayPool, ClientTransportMgr and DynamicHostResolver from three goroutines. Oracle: no race report, no fatal error or panic, every client finishes (no transaction waits more than 20 s unless a membership change was in flight), every request reached exactly one backend of the listen entry it was sent to (at most one while a change was in flight), every response returned to the client that sent the request. non-trivial = plan with >= 2 listeners receiving simultaneously and >= 1 membership change during traffic; distinct by plan")
 	V.Assume("schedules are sampled by the Go scheduler under the drawn plan, not enumerated: this check can expose races, never show their absence")
-	V.Require("plan with churn", "plan with hammering", ">=2 listeners in parallel", "tcp and udp clients together")
+	V.Require("plan with fast churn", "plan with churn", "plan with hammering", ">=2 listeners in parallel", "tcp and udp clients together")
 	rig, err := newC09Rig()
 	if err != nil {
 		V.HarnessError(t, "cannot start lab instance: %v", err)
 	}
 	n := 0
-	rcheck(t, "plans", V.N(6, 25), func(rt *rapid.T) {
+	rcheck(t, "plans", V.N(8, 25), func(rt *rapid.T) {
 		plan := c09Plan{
 			Procs:      rapid.SampledFrom([]int{2, 4, 8, 16}).Draw(rt, "gomaxprocs"),
 			UDPClients: rapid.IntRange(2, 12).Draw(rt, "udp clients"),
 			TCPClients: rapid.IntRange(1, 8).Draw(rt, "tcp clients"),
 			PerClient:  rapid.IntRange(30, 250).Draw(rt, "transactions each"),
 			Churn:      rapid.IntRange(0, 3).Draw(rt, "churn") > 0,
+			FastChurn:  rapid.IntRange(0, 2).Draw(rt, "fast churn") == 0,
 			Hammer:     rapid.IntRange(0, 2).Draw(rt, "hammer") > 0,
 		}
 		n++
 		V.Journal(t.Name()+"/plans", plan)
 		out := rig.run(plan, fmt.Sprintf("p%d", n))
 		V.ClassIf(plan.Churn && out.membership > 0, "plan with churn")
+		V.ClassIf(plan.Churn && plan.FastChurn, "plan with fast churn")
 		V.ClassIf(plan.Hammer, "plan with hammering")
 		V.ClassIf(len(out.listeners) >= 2, ">=2 listeners in parallel")
 		V.Class("tcp and udp clients together")
